@@ -33,6 +33,7 @@ def run(ctx):
     ctx.rule("C11.6", "tokeniser character classes vs writer escape classes (shared with C13.1); an escape is read as backslash-DDD = the octet DDD, backslash-X = X (shared with C13.2)")
     ctx.rule("C11.7", "record forms: the type may be preceded by 0..3 fields and each form is tried for every line long enough for it; a leading field is a TTL exactly when it is all digits, otherwise a name")
     ctx.rule("C11.8", "parentheses: `(` at the start of a token opens a continuation, `)` closes it, and a newline ends the entry in every unquoted state exactly when no parenthesis is open (tabulated from the tokeniser's MIR)")
+    ctx.rule("C11.9", "every RDATA form the writer prints has a parser arm with the same fields in the same order (C13.4, decided here as well: the fields of a record are read into the places they denote)")
     ctx.decline("that parsing yields exactly the denoted records for every rendering (value property)")
 
     zd = prog.fn(ZONE_DES)
@@ -378,6 +379,11 @@ def run(ctx):
     # ---------------------------------------------------------------- C11.6
     C13.escape_rules(ctx, "C11.6")
     C13.escape_reader_rules(ctx, "C11.6")
+
+    # ---------------------------------------------------------------- C11.9
+    from ..core import RuleAlias
+    if not isinstance(ctx, RuleAlias):
+        C13.run(RuleAlias(ctx, {"C13.4": "C11.9"}))
 
     # ---------------------------------------------------------------- C11.8
     from . import zonetext
